@@ -154,6 +154,7 @@ func (tg *TCPGroup) worker() {
 			tg.acceptCh <- c
 		})
 		if err != nil {
+			c.Close()
 			return
 		}
 	}
